@@ -36,11 +36,12 @@ func ruleExecuteThenClean(fnNames ...string) ruleFn {
 	return func(r *Run) {
 		const rule = "R5.clean"
 		n := 0
-		for _, name := range fnNames {
-			fn := r.Anchor(rule, name)
-			if fn == nil {
-				continue
-			}
+		var fns []*ssa.Function
+		for _, role := range fnNames {
+			fns = append(fns, r.AnchorRole(rule, role)...)
+		}
+		for _, fn := range fns {
+			name := fnName(fn)
 			for _, ins := range allInstrs(fn) {
 				call, ok := ins.(*ssa.Call)
 				if !ok || !call.Call.IsInvoke() || call.Call.Method.Name() != "Execute" || namedOf(call.Call.Value.Type()) != modPath+"/executor.Executor" {
